@@ -280,7 +280,9 @@ class Stream(APIRegisterMixin):
         else:
             for upstream in self.upstreams:
                 if upstream and upstream.loop:
-                    self.loop = upstream.loop
+                    # also tells the other upstreams (a join over a bound
+                    # and a still unbound pipeline binds both)
+                    self._inform_loop(upstream.loop)
                     break
 
     def _inform_loop(self, loop):
@@ -306,7 +308,7 @@ class Stream(APIRegisterMixin):
         else:
             for upstream in self.upstreams:
                 if upstream and upstream.asynchronous:
-                    self.asynchronous = upstream.asynchronous
+                    self._inform_asynchronous(upstream.asynchronous)
                     break
 
     def _inform_asynchronous(self, asynchronous):
